@@ -129,6 +129,7 @@ def judge_passes(chk, passes, parent, rows, tier, seed, n_rand):
             continue
         done = []
         reported = set()
+        n_min = 0
         for name, dt, st, obs, error in recs:
             done.append([name, dt])
             t = byname.get(name)
@@ -147,8 +148,11 @@ def judge_passes(chk, passes, parent, rows, tier, seed, n_rand):
             # minimise: the same row, the dtype that ran first in this pass and the failing dtype, in a fresh process
             first = [d for n_, d in done if n_ == name][0]
             seq = [[name, first], [name, dt]] if first != dt else [[name, dt]]
-            mrecs, _ = collect(spawn(["--seq", tier, seed, json.dumps(seq)], 200))
-            minimal = bool(mrecs) and (mrecs[-1][2], sorted((s, d) for s, d in mrecs[-1][3])) == (st, obs)
+            minimal = False
+            if n_min < 3:         # (a fresh process per minimisation: only for the first few discrepancies of a pass)
+                n_min += 1
+                mrecs, _ = collect(spawn(["--seq", tier, seed, json.dumps(seq)], 200))
+                minimal = bool(mrecs) and (mrecs[-1][2], sorted((s, d) for s, d in mrecs[-1][3])) == (st, obs)
             if not minimal:
                 seq = done[:]
             mask_dt = None if t["mask"] is None else (M.MASK_DT[t["mask"]] or dt)
@@ -195,6 +199,29 @@ def _fp(v, depth=0):
     if isinstance(v, (int, float, complex, str, bytes, bool, type(None))):
         return (type(v).__name__, repr(v)[:80])
     return (type(v).__name__, id(v))
+
+
+def import_all():
+    """imports every module of the library (tests and the optional-dependency plugins / sparse backend aside) so that the first snapshot sees all of its
+    module-level objects: an object that appears only in the second snapshot was created by a call"""
+    import importlib, pkgutil, warnings
+    import tensorly
+    with warnings.catch_warnings():
+        warnings.simplefilter("ignore")
+        for m in pkgutil.walk_packages(tensorly.__path__, "tensorly."):
+            if ".tests" in m.name or m.name.endswith(".conftest") or ".sparse" in m.name or m.name.startswith("tensorly.backend.") and m.name.split(".")[-1] not in ("core", "numpy_backend"):
+                continue
+            try:
+                importlib.import_module(m.name)
+            except Exception:  # noqa
+                pass
+        try:
+            # the tenalg backends are loaded lazily into TenalgBackendManager._loaded_backends: load both now
+            from tensorly import tenalg
+            tenalg.set_backend("einsum")
+            tenalg.set_backend("core")
+        except Exception:  # noqa
+            pass
 
 
 def _is_container(v):
@@ -284,7 +311,8 @@ def _strip_ids(fp):
 
 
 # state that has been looked at: the backend selection (tl.set_backend / tenalg.set_backend; the rows that switch the tenalg backend restore it)
-STATE_WHITELIST = ()
+# (the registries of loaded backend singletons: backend objects, no arrays; filled on the first set_backend of a name)
+STATE_WHITELIST = ("tensorly.tenalg.TenalgBackendManager._loaded_backends", "tensorly.backend.BackendManager._loaded_backends")
 
 
 def diff_state(before, after):
@@ -518,6 +546,55 @@ def _scan_function(fn, qual, module_imports, module_objects, class_mutables, enc
             _scan_function(n, qual + ".<locals>." + n.name, module_imports, module_objects, class_mutables, inner, hits)
 
 
+def _scan_tree(tree, mod, hits, n_fn):
+    imports, objects, defined = set(), set(), set()
+    for n in ast.walk(tree):
+        if isinstance(n, (ast.Import, ast.ImportFrom)):
+            for al in n.names:
+                imports.add((al.asname or al.name).split(".")[0])
+    for n in tree.body:
+        if isinstance(n, (ast.FunctionDef, ast.AsyncFunctionDef, ast.ClassDef)):
+            defined.add(n.name)
+        tg, val = [], None
+        if isinstance(n, ast.Assign):
+            tg, val = n.targets, n.value
+        elif isinstance(n, ast.AnnAssign) and n.value is not None:
+            tg, val = [n.target], n.value
+        if val is not None and (_is_mutable_value(val) or isinstance(val, ast.Call)):
+            objects.update(t.id for t in tg if isinstance(t, ast.Name))
+
+    def visit(body, prefix, class_mut):
+        for node in body:
+            if isinstance(node, (ast.FunctionDef, ast.AsyncFunctionDef)):
+                n_fn[0] += 1
+                _scan_function(node, prefix + node.name, imports, objects - defined, class_mut, {}, hits)
+            elif isinstance(node, ast.ClassDef):
+                cm = set()
+                for m in node.body:
+                    if isinstance(m, ast.Assign) and (_is_mutable_value(m.value) or isinstance(m.value, ast.Call)):
+                        cm.update(t.id for t in m.targets if isinstance(t, ast.Name))
+                    elif isinstance(m, ast.AnnAssign) and m.value is not None and isinstance(m.target, ast.Name) and \
+                            (_is_mutable_value(m.value) or isinstance(m.value, ast.Call)):
+                        cm.add(m.target.id)
+                for dec in node.decorator_list:
+                    dd = _dotted(dec.func if isinstance(dec, ast.Call) else dec)
+                    if not dd or dd[-1] not in OK_DECORATORS:
+                        hits.append({"function": prefix + node.name, "kind": "unknown-decorator", "name": ".".join(dd or ["?"]), "line": node.lineno})
+                visit(node.body, prefix + node.name + ".", cm)
+            elif isinstance(node, (ast.If, ast.Try, ast.With)):
+                for fld in ("body", "orelse", "finalbody"):
+                    visit(getattr(node, fld, []) or [], prefix, class_mut)
+                for h in getattr(node, "handlers", []) or []:
+                    visit(h.body, prefix, class_mut)
+    visit(tree.body, mod + ".", set())
+
+
+def scan_source(src, mod):
+    hits = []
+    _scan_tree(ast.parse(src), mod, hits, [0])
+    return hits
+
+
 def scan_persistent_state(repo):
     """(hits outside the whitelist, all hits, number of functions scanned, whitelist entries that no longer match)"""
     hits, n_fn = [], [0]
@@ -538,46 +615,7 @@ def scan_persistent_state(repo):
                 hits.append({"function": os.path.relpath(pth, repo), "kind": "syntax-error", "name": "", "line": 0})
                 continue
             mod = os.path.relpath(pth, repo)[:-3].replace(os.sep, ".")
-            imports, objects, defined = set(), set(), set()
-            for n in ast.walk(tree):
-                if isinstance(n, (ast.Import, ast.ImportFrom)):
-                    for al in n.names:
-                        imports.add((al.asname or al.name).split(".")[0])
-            for n in tree.body:
-                if isinstance(n, (ast.FunctionDef, ast.AsyncFunctionDef, ast.ClassDef)):
-                    defined.add(n.name)
-                tg, val = [], None
-                if isinstance(n, ast.Assign):
-                    tg, val = n.targets, n.value
-                elif isinstance(n, ast.AnnAssign) and n.value is not None:
-                    tg, val = [n.target], n.value
-                if val is not None and (_is_mutable_value(val) or isinstance(val, ast.Call)):
-                    objects.update(t.id for t in tg if isinstance(t, ast.Name))
-
-            def visit(body, prefix, class_mut):
-                for node in body:
-                    if isinstance(node, (ast.FunctionDef, ast.AsyncFunctionDef)):
-                        n_fn[0] += 1
-                        _scan_function(node, prefix + node.name, imports, objects - defined, class_mut, {}, hits)
-                    elif isinstance(node, ast.ClassDef):
-                        cm = set()
-                        for m in node.body:
-                            if isinstance(m, ast.Assign) and (_is_mutable_value(m.value) or isinstance(m.value, ast.Call)):
-                                cm.update(t.id for t in m.targets if isinstance(t, ast.Name))
-                            elif isinstance(m, ast.AnnAssign) and m.value is not None and isinstance(m.target, ast.Name) and \
-                                    (_is_mutable_value(m.value) or isinstance(m.value, ast.Call)):
-                                cm.add(m.target.id)
-                        for dec in node.decorator_list:
-                            dd = _dotted(dec.func if isinstance(dec, ast.Call) else dec)
-                            if not dd or dd[-1] not in OK_DECORATORS:
-                                hits.append({"function": prefix + node.name, "kind": "unknown-decorator", "name": ".".join(dd or ["?"]), "line": node.lineno})
-                        visit(node.body, prefix + node.name + ".", cm)
-                    elif isinstance(node, (ast.If, ast.Try, ast.With)):
-                        for fld in ("body", "orelse", "finalbody"):
-                            visit(getattr(node, fld, []) or [], prefix, class_mut)
-                        for h in getattr(node, "handlers", []) or []:
-                            visit(h.body, prefix, class_mut)
-            visit(tree.body, mod + ".", set())
+            _scan_tree(tree, mod, hits, n_fn)
     keys = {(h["function"], h["kind"], h["name"]) for h in hits}
     open_hits = [h for h in hits if (h["function"], h["kind"], h["name"]) not in SCAN_WHITELIST]
     stale = sorted(SCAN_WHITELIST - keys)
